@@ -8,8 +8,8 @@ one() {
   rsync -a --exclude .git /repo/ $t/repo/
   mkdir -p $t/verif/bin $t/verif/evidence; cp /verif/known_findings.json $t/verif/
   (cd $t/repo && git apply $p 2>/dev/null) || { echo "$p APPLYFAIL"; rm -rf $t; return; }
-  r=$(NFS_REPO=$t/repo NFS_VERIF=$t/verif NFS_NO_SELFTEST=1 /verif/bin/nfsverif check $CHECKS 2>&1 | grep -aE "^(VIOLATED|UNDECIDED)" | awk '{print $2" "$3}' | cut -c1-120 | sort -u | tr '\n' ';')
+  r=$(NFS_REPO=$t/repo NFS_VERIF=$t/verif NFS_NO_SELFTEST=1 ${NFS_BIN:-/verif/bin/nfsverif} check $CHECKS 2>&1 | grep -aE "^(VIOLATED|UNDECIDED)" | awk '{print $2" "$3}' | cut -c1-120 | sort -u | tr '\n' ';')
   echo "$p => $r"; rm -rf $t
 }
-export -f one; export CHECKS
+export -f one; export CHECKS NFS_BIN
 printf '%s\n' "$@" | xargs -P $J -I{} bash -c 'one {}'
